@@ -495,6 +495,9 @@ pub fn run(pc: &PropCtx) {
     pc.assume("--null, --null-data and --json are excluded from the stdout NUL scan (they legitimately emit NUL or never emit raw bytes); --text itself is covered by C01's CLI sample run with -a");
     let n = pc.tier.pick(20_000, 400_000);
     pc.run_tape("library", n, (128, 1200), gen_lib_case, check_lib);
+    if pc.tier == crate::runner::Tier::Thorough {
+        pc.run_fuzz("C14:library", 300_000, 5000, &|v| replay(pc, "library", v).unwrap_or(Verdict::Reject("unreadable")));
+    }
     pc.set_shrink_iters(200);
     let n = pc.tier.pick(3_000, 60_000);
     pc.run_tape("cli", n, (128, 1200), gen_cli_case, check_cli);
